@@ -8,20 +8,24 @@ EXPLANATION = (
     "layout numbers computed by the model of lowerStruct/typeAlignmentAndSize/resolveType-stride/TypeSize equal the "
     "WGSL memory-layout rules (naga_eq_spec), incl. the bit-clear rounding = roundUp for power-of-two alignments. "
     "Tie: correspondence — random type trees are compiled by the real front end and backends; every Offset/Span/"
-    "Stride/TypeSize in the IR and every Offset/ArrayStride/MatrixStride decoration in the SPIR-V binary is compared "
-    "with the executable model (= spec by the theorem). A mismatch is itself a concrete failing input.")
+    "Stride/TypeSize in the IR, every Offset/ArrayStride/MatrixStride decoration in the SPIR-V binary, the constant byte "
+    "address of every HLSL ByteAddressBuffer store to 1-8 random leaf paths (Layout.offsetOfPath), and the offsets/"
+    "strides/sizes that the C++ layout rules (Layout.cppDump, MSL spec table sizes) give the struct declarations in the "
+    "MSL text, are compared with the executable model (= spec by the theorem). A mismatch is itself a concrete failing input.")
 ASSUMPTIONS = [
     "Lean 4 kernel; axioms propext, Classical.choice, Quot.sound only",
     "Layout.spec* is my transcription of WGSL §14.4 (Memory Layout)",
     "model arithmetic is on unbounded Nat (uint32 wrap-around of sizes >= 4 GiB not modelled)",
-    "Go harness: type-tree generator, IR walker, independent SPIR-V decoration reader",
+    "Go harness: type-tree generator, IR walker, independent SPIR-V decoration reader, regex readers for HLSL store addresses and MSL struct declarations",
+    "Layout.mslBuiltin/cppSizeAlign: my transcription of the MSL size/alignment tables and C++ struct layout",
+    "GLSL std430 blocks are not compared (explicit @align/@size cannot be expressed there; naga emits no offsets)",
 ]
 
-N = {"quick": 400, "thorough": 20000}
+N = {"quick": 2000, "thorough": 40000}
 
 
 def run(ck):
-    ck.rule = ("random struct/array/matrix/vector/scalar/atomic trees (depth<=4 incl. top, <=8 members, f16 on 15%, "
+    ck.rule = ("random struct/array/matrix/vector/scalar/atomic trees (depth<=4 incl. top, <=8 members, f16 on 30%, "
                "@align on 30% and @size on 25% of members, optional trailing runtime array); non-trivial = at least one "
                "nested struct/array or explicit attribute; distinct by tree")
     ck.trusted = ["Lean kernel", "axioms: propext, Classical.choice, Quot.sound", "WGSL layout transcription (Layout.spec*)",
@@ -40,6 +44,12 @@ def run(ck):
     if not ck.run_driver(["c07", "spec"], os.path.join(out, "cases.txt"), os.path.join(out, "model.txt")):
         return
     model = common.read_lines(os.path.join(out, "model.txt"))
+    # the C++ layout (Layout.cppDump) of the struct declarations the MSL back end wrote
+    if not ck.run_driver(["c07msl"], os.path.join(out, "msl.txt"), os.path.join(out, "mslout.txt")):
+        return
+    mslout = common.read_lines(os.path.join(out, "mslout.txt"))
+    if len(mslout) == len(impl):
+        impl = [a + " msl=" + m for a, m in zip(impl, mslout)]
     if not (len(cases) == len(impl) == len(model)):
         ck.tie_broken("c07-lines", "line count mismatch", "%d %d %d" % (len(cases), len(impl), len(model)))
         return
@@ -51,4 +61,6 @@ def run(ck):
             ck.samples.append({"type_tree": c, "implementation": a, "model": b})
         if a != b:
             ck.violation({"kind": "layout-mismatch", "type_tree": c, "wgsl": srcs[i], "expected_spec": b, "observed": a,
-                          "how": "offsets/spans/strides recorded by naga (ir=) or decorated in SPIR-V (spv=) differ from WGSL layout"})
+                          "how": "offsets/spans/strides recorded by naga (ir=), decorated in SPIR-V (spv=), used as byte addresses by the "
+                                 "HLSL stores to the listed paths (hlsl=), or implied by the C++ layout of the MSL struct declarations "
+                                 "(msl=) differ from the WGSL layout"})
